@@ -113,7 +113,16 @@ struct Machine {
 		else if (cmd == "B") { int r = a[0]; R[r].makeIndependent(); repartitionByClass(R[r], a[1]); dump(o, r); }
 		else if (cmd == "Y") { int r = a[0], q = a[1]; DS t = binarySubProblem(R[r], (unsigned)a[2], (unsigned)a[3]); R[q] = t; dump(o, q); }
 		else if (cmd == "E") { int r = a[0]; auto e = R[r].element(a[1]); o << " elem=" << Enc<I>::id(I(e.input)) << ":" << e.label;
-			DataView<DS> v(R[r]); o << " view=" << Enc<I>::id(I(v[a[1]].input)) << ":" << v[a[1]].label; }
+			DataView<DS> v(R[r]); o << " view=" << Enc<I>::id(I(v[a[1]].input)) << ":" << v[a[1]].label;
+			// the same element through Data<T>::element(i) of the two containers, and through a const element range / iterator
+			// CONVERTED from the mutable one (Data<T>::const_element_range r = data.elements())
+			Data<I>& mi = R[r].inputs(); Data<unsigned int>& ml = R[r].labels();
+			o << " din=" << Enc<I>::id(I(mi.element(a[1]))) << ":" << ml.element(a[1]);
+			typename Data<I>::const_element_range cr = mi.elements();
+			std::size_t cnt = 0; for (auto it = cr.begin(); it != cr.end() && cnt <= mi.numberOfElements(); ++it) ++cnt;
+			auto mit = mi.elements().begin(); mit += a[1];
+			typename Data<I>::const_element_range::iterator cit(mit);
+			o << " crange=" << cnt << " cidx=" << cit.index() << " cderef=" << Enc<I>::id(I(*cit)); }
 		else if (cmd == "J") { // J r p neg n : (begin+p) advanced by +-n, then ++/-- round trip
 			int r = a[0]; auto rng = R[r].elements(); auto it = rng.begin(); it += a[1];
 			std::ptrdiff_t n = a[2] ? -a[3] : a[3]; it += n;
